@@ -75,6 +75,10 @@ def main():
     if valid:
         rc, o = sh("git -C %s status --porcelain" % REPO)
         assert o.strip() == "", "/repo is not clean: " + o
+        # the evidence files of the unchanged tree must survive the experiment
+        ev_backup = "/tmp/seed_evidence_%d" % os.getpid()
+        shutil.rmtree(ev_backup, ignore_errors=True)
+        shutil.copytree(os.path.join(ROOT, "evidence"), ev_backup)
         try:
             rc, o = sh("git -C %s apply %s" % (REPO, patch))
             assert rc == 0, o
@@ -93,6 +97,11 @@ def main():
                 meta["ran"].append("git -C /repo apply patch.diff; ./check %s --tier quick -> exit %d %s" % (p, rc, "; ".join(viol)[:300]))
         finally:
             sh("git -C %s checkout -- ." % REPO)
+            shutil.rmtree(os.path.join(ROOT, "evidence"), ignore_errors=True)
+            shutil.copytree(ev_backup, os.path.join(ROOT, "evidence"))
+            shutil.rmtree(ev_backup, ignore_errors=True)
+            # the generated Coq files go back to what the unchanged source says
+            sh("python3 %s" % os.path.join(ROOT, "gen", "gen.py"))
     shutil.copy(patch, os.path.join(out, "patch.diff"))
     shutil.copy(demo, os.path.join(out, "demo.rs"))
     json.dump(meta, open(os.path.join(out, "meta.json"), "w"), indent=1)
